@@ -898,7 +898,8 @@ def check(run: common.Run):
                       bool(failures))
 
     run.coverage.update(
-        evaluations=len(items) + len(nitems) + len(ritems) + len(sums),
+        evaluations=len(items) + len(nitems) + len(ritems) + len(sums) + rstats["cases"] + rstats["zrange_cases"]
+        + rstats["sem_cases"],
         distinct_nontrivial=len(distinct),
         rule=("bound table: ALL ordered pairs of comparisons of x with constants {0,1,2}, 6 operators, both "
               "literal sides, x and/or (exhaustive); triples (sampled in quick, exhaustive in thorough); nested "
